@@ -53,10 +53,16 @@ def gen_case(rng):
         c["padding"] = {"kind": kind, "W": dim(w, tw), "H": dim(h, th), "ha": rng.randrange(3), "va": rng.randrange(3)}
         if kind == "old":
             c["fill"] = "space"
+            if rng.random() < 0.5:  # the same padding requested through a format specifier
+                P = c["padding"]
+                P["W"] = max(P["W"], 0)
+                if P["H"] < 0:
+                    P["H"] = rng.choice([-2, 0])
+                c["via"] = "format"
     else:
         c["padding"] = {"kind": "exact", "l": rng.choice([0, 0, 1, 2, 3]), "t": rng.choice([0, 0, 1, 2]),
                         "r": rng.choice([0, 0, 1, 2, 3]), "b": rng.choice([0, 0, 1, 2])}
-    if kind != "old" and rng.random() < 0.3:
+    if kind != "old" and rng.random() < 0.3:  # (old + format route is set above)
         c["via"] = "renderable"
     return c
 
@@ -78,6 +84,12 @@ def corpus():
             cs.append({"render": blk, "term_size": [9, 7], "fill": "space",
                        "padding": {"kind": "old", "W": 0, "H": -2, "ha": ha, "va": va}})
     cs.append({"render": kit, "term_size": [9, 7], "fill": "space", "padding": {"kind": "exact", "l": 1, "t": 0, "r": 0, "b": 2}})
+    # format-spec route: explicit zero / absent width and height
+    for W, H, pres in ((0, 0, 0), (0, 0, 1), (5, 0, 0), (0, -2, 1), (6, 4, 2), (0, 3, 0)):
+        cs.append({"render": blk, "term_size": [9, 7], "fill": "space", "via": "format", "pres": pres,
+                   "padding": {"kind": "old", "W": W, "H": H, "ha": pres % 3, "va": (pres + 1) % 3}})
+    cs.append({"render": kit, "term_size": [9, 7], "fill": "space", "via": "format", "pres": 1,
+               "padding": {"kind": "old", "W": 0, "H": 0, "ha": 2, "va": 0}})
     cs.append({"render": blk, "term_size": [9, 7], "fill": "space", "via": "renderable",
                "padding": {"kind": "aligned", "W": 4, "H": 2, "ha": 0, "va": 0}})
     return cs
